@@ -331,36 +331,40 @@ def validatePos (W U : Nat) (m : Market) (c : PerpCfg) (pr : Prices) (p : Pos) (
 
 /-! ### open interest and total borrowing -/
 
+/-- the max-open-interest check of `apply_delta_to_open_interest` (only for positive deltas). -/
+def oiExceeded (W : Nat) (oi : Pool) (maxOI : Nat) (dUsd : Int) : Bool :=
+  decide (dUsd > 0) && (match checkedAdd W oi.long oi.short with
+    | some t => decide (t > maxOI)
+    | none => true)
+
+/-- the virtual inventory for positions tracks the users' net open interest (`None` = failure). -/
+def updateViPositions (W : Nat) (vi : Option Pool) (isLong : Bool) (dUsd : Int) : Option (Option Pool) :=
+  match vi with
+  | none => some none
+  | some pool =>
+    match toSigned W dUsd.natAbs with
+    | none => none
+    | some a =>
+      let toLong := (isLong && decide (¬ dUsd < 0)) || (!isLong && decide (dUsd < 0))
+      match pool.applyDelta W toLong a with
+      | none => none
+      | some q => (cancelAmounts W q).map some
+
 /-- `apply_delta_to_open_interest` (with the max-open-interest check and the virtual inventory
 for positions) followed by the token pool update: `PositionMutExt::update_open_interest`. -/
-def updateOpenInterest (W : Nat) (m : Market) (p : Pos) (dUsd dTok : Int) : Except PErr Market :=
+def updateOpenInterest (W : Nat) (m : Market) (isLong collLong : Bool) (dUsd dTok : Int) : Except PErr Market :=
   if dUsd = 0 then .ok m else
-  match (oiPool m p.isLong).applyDelta W p.collLong dUsd with
+  match (oiPool m isLong).applyDelta W collLong dUsd with
   | none => .error .fail
   | some oi =>
-    let exceeded := decide (dUsd > 0) && (match checkedAdd W oi.long oi.short with
-      | some t => decide (t > m.cfg.maxOpenInterest)
-      | none => true)
     -- the pool is written before the check (the caller discards the state on error)
-    if exceeded then .error .maxOI else
-    let m1 := setOiPool m p.isLong oi
-    let vi : Option (Option Pool) := match m1.viPositions with
-      | none => some none
-      | some pool =>
-        match toSigned W dUsd.natAbs with
-        | none => none
-        | some a =>
-          let toLong := (p.isLong && decide (¬ dUsd < 0)) || (!p.isLong && decide (dUsd < 0))
-          match pool.applyDelta W toLong a with
-          | none => none
-          | some q => (cancelAmounts W q).map some
-    match vi with
+    if oiExceeded W oi m.cfg.maxOpenInterest dUsd then .error .maxOI else
+    match updateViPositions W m.viPositions isLong dUsd with
     | none => .error .fail
     | some v =>
-      let m2 := { m1 with viPositions := v }
-      match (oitPool m2 p.isLong).applyDelta W p.collLong dTok with
+      match (oitPool m isLong).applyDelta W collLong dTok with
       | none => .error .fail
-      | some t => .ok (setOitPool m2 p.isLong t)
+      | some t => .ok (setOitPool { setOiPool m isLong oi with viPositions := v } isLong t)
 
 /-- `PositionMutExt::update_total_borrowing` on the market. -/
 def updateTotalBorrowingM (W U : Nat) (m : Market) (p : Pos) (nextSize nextBf : Nat) : Except PErr Market :=
@@ -460,7 +464,7 @@ def increaseCore (W U : Nat) (m : Market) (c : PerpCfg) (pr : Prices) (p : Pos) 
   let p := ({ p with sizeUsd := nextSize, sizeTokens := nextTokens, bf := nextBf }).syncFunding m
   let sdS ← orF (toSigned W sizeDelta)
   let sdtS ← orF (toSigned W sdt)
-  let m ← updateOpenInterest W m p sdS sdtS
+  let m ← updateOpenInterest W m p.isLong p.collLong sdS sdtS
   if sizeDelta ≠ 0 then
     validateReserveP W U m pr p.isLong
     validateOiReserve W U m pr p.isLong
@@ -503,36 +507,39 @@ structure PCtx where
 def PCtx.outPrice (x : PCtx) : Price := x.pr.collateral x.outLong
 def PCtx.pnlPrice (x : PCtx) : Price := x.pr.collateral x.pnlLong
 
-/-- `State::do_pay_for_cost`: `(state, paid in collateral, paid in secondary, remaining cost)`. -/
-def doPayForCost (W : Nat) (x : PCtx) (s : PState) (cost : Nat) : Option (PState × Nat × Nat × Nat) :=
-  if cost = 0 then some (s, 0, 0, 0) else
+/-- pay `need` out of `avail`: `(new avail, paid, still needed)` (each stage of `do_pay_for_cost`). -/
+def takeFrom (avail need : Nat) : Nat × Nat × Nat :=
+  if avail = 0 then (avail, 0, need)
+  else if avail > need then (avail - need, need, 0)
+  else (0, avail, need - avail)
+
+/-- the amounts of `State::do_pay_for_cost`: pay the cost from the output amount, then the
+collateral, then the secondary output: `(out', rem', sec', paid in collateral token, paid in
+secondary token, remaining cost)`. -/
+def payAmounts (W : Nat) (x : PCtx) (out rem sec cost : Nat) : Option (Nat × Nat × Nat × Nat × Nat × Nat) :=
+  if cost = 0 then some (out, rem, sec, 0, 0, 0) else
   match roundUpDiv W cost x.outPrice.min with
   | none => none
   | some rc0 =>
-    -- output amount
-    let (s1, paid1, rc1) :=
-      if s.out = 0 then (s, 0, rc0)
-      else if s.out > rc0 then ({ s with out := s.out - rc0 }, rc0, 0)
-      else ({ s with out := 0 }, s.out, rc0 - s.out)
-    if rc1 = 0 then some (s1, paid1, 0, 0) else
-    -- collateral
-    let (s2, paid2, rc2) :=
-      if s1.rem = 0 then (s1, paid1, rc1)
-      else if s1.rem > rc1 then ({ s1 with rem := s1.rem - rc1 }, paid1 + rc1, 0)
-      else ({ s1 with rem := 0 }, paid1 + s1.rem, rc1 - s1.rem)
+    let a := takeFrom out rc0
+    if a.2.2 = 0 then some (a.1, rem, sec, a.2.1, 0, 0) else
+    let b := takeFrom rem a.2.2
+    let paid2 := a.2.1 + b.2.1
     if paid2 ≥ 2 ^ W then none else
-    if rc2 = 0 then some (s2, paid2, 0, 0) else
-    -- secondary output
-    match mulDiv W rc2 x.outPrice.min x.pnlPrice.min with
+    if b.2.2 = 0 then some (a.1, b.1, sec, paid2, 0, 0) else
+    match mulDiv W b.2.2 x.outPrice.min x.pnlPrice.min with
     | none => none
     | some rs0 =>
-      let (s3, paidS, rs1) :=
-        if s2.sec = 0 then (s2, 0, rs0)
-        else if s2.sec > rs0 then ({ s2 with sec := s2.sec - rs0 }, rs0, 0)
-        else ({ s2 with sec := 0 }, s2.sec, rs0 - s2.sec)
-      match checkedMul W rs1 x.pnlPrice.min with
+      let c := takeFrom sec rs0
+      match checkedMul W c.2.2 x.pnlPrice.min with
       | none => none
-      | some left => some (s3, paid2, paidS, left)
+      | some left => some (a.1, b.1, c.1, paid2, c.2.1, left)
+
+/-- `State::do_pay_for_cost`: `(state, paid in collateral, paid in secondary, remaining cost)`. -/
+def doPayForCost (W : Nat) (x : PCtx) (s : PState) (cost : Nat) : Option (PState × Nat × Nat × Nat) :=
+  match payAmounts W x s.out s.rem s.sec cost with
+  | none => none
+  | some (o, r, sc, pc, ps, left) => some ({ s with out := o, rem := r, sec := sc }, pc, ps, left)
 
 /-- `pay_to_primary_pool`. -/
 def payToPrimaryPool (W : Nat) (x : PCtx) (m : Market) (paidColl paidSec : Nat) : Option Market :=
@@ -593,20 +600,27 @@ def payForCost (W : Nat) (x : PCtx) (s : PState) (cost : Nat) (step : Step)
     | none => .err .fail
     | some s2 => if left ≠ 0 then .short step s2 else .ok s2
 
+/-- receiver of `pay_for_funding_fees`: the part paid in the secondary token goes to the holding
+claimable; a payment in collateral tokens below the fee is reported as insufficient. -/
+def recvFunding (W fundAmount : Nat) (s1 : PState) (pc ps : Nat) : Option PState :=
+  match (if ps ≠ 0 then checkedAdd W s1.holdSec ps else some s1.holdSec) with
+  | none => none
+  | some hs => some { s1 with holdSec := hs, fundingShort := s1.fundingShort || decide (pc < fundAmount) }
+
 /-- `pay_for_funding_fees`. -/
 def payForFunding (W : Nat) (x : PCtx) (s : PState) (fundAmount : Nat) : PRes :=
   if fundAmount = 0 then .ok s else
   match checkedMul W fundAmount x.outPrice.min with
   | none => .err .fail
-  | some cost =>
-    payForCost W x s cost .funding (fun s1 pc ps _ =>
-      let s2 := if ps ≠ 0 then (checkedAdd W s1.holdSec ps).map (fun v => { s1 with holdSec := v }) else some s1
-      s2.map (fun s3 => if pc < fundAmount then { s3 with fundingShort := true } else s3))
+  | some cost => payForCost W x s cost .funding (fun s1 pc ps _ => recvFunding W fundAmount s1 pc ps)
+
+/-- receiver of `pay_for_pnl_if_negative`. -/
+def recvToPool (W : Nat) (x : PCtx) (s1 : PState) (pc ps : Nat) : Option PState :=
+  (payToPrimaryPool W x s1.m pc ps).map (fun m => { s1 with m := m })
 
 /-- `pay_for_pnl_if_negative`. -/
 def payForPnl (W : Nat) (x : PCtx) (s : PState) (pnl : Int) : PRes :=
-  if pnl < 0 then
-    payForCost W x s pnl.natAbs .pnl (fun s1 pc ps _ => (payToPrimaryPool W x s1.m pc ps).map (fun m => { s1 with m := m }))
+  if pnl < 0 then payForCost W x s pnl.natAbs .pnl (fun s1 pc ps _ => recvToPool W x s1 pc ps)
   else .ok s
 
 /-- `pay_for_fees_excluding_funding`: returns the (possibly cleared) fees as well. -/
@@ -637,34 +651,40 @@ def payForFees (W : Nat) (x : PCtx) (s : PState) (fees : PosFees) : PRes × PosF
             let s2 := { s1 with m := m1 }
             (if left ≠ 0 then .short .fees s2 else .ok s2, fees.clearExclFunding)
 
+/-- credit `amt` tokens priced `pa`, converted at the index price `pb`, to the position impact pool. -/
+def creditImpactPool (W : Nat) (m : Market) (amt pa pb : Nat) : Option Market :=
+  if amt ≠ 0 then
+    ((mulDiv W amt pa pb).bind (toSigned W)).bind (fun d =>
+      (m.positionImpact.applyDelta W true d).map (fun ip => { m with positionImpact := ip }))
+  else some m
+
+/-- receiver of `pay_for_price_impact_if_negative`. -/
+def recvImpact (W : Nat) (x : PCtx) (s1 : PState) (pc ps : Nat) : Option PState :=
+  match payToPrimaryPool W x s1.m pc ps with
+  | none => none
+  | some m1 =>
+    match creditImpactPool W m1 pc x.outPrice.min x.pr.index.max with
+    | none => none
+    | some m2 =>
+      match creditImpactPool W m2 ps x.pnlPrice.min x.pr.index.max with
+      | none => none
+      | some m3 => some { s1 with m := m3 }
+
 /-- `pay_for_price_impact_if_negative`. -/
 def payForImpact (W : Nat) (x : PCtx) (s : PState) (impact : Int) : PRes :=
-  if impact < 0 then
-    payForCost W x s impact.natAbs .impact (fun s1 pc ps _ =>
-      match payToPrimaryPool W x s1.m pc ps with
-      | none => none
-      | some m1 =>
-        let m2 : Option Market := if pc ≠ 0 then
-            ((mulDiv W pc x.outPrice.min x.pr.index.max).bind (toSigned W)).bind (fun d =>
-              (m1.positionImpact.applyDelta W true d).map (fun ip => { m1 with positionImpact := ip }))
-          else some m1
-        match m2 with
-        | none => none
-        | some m2 =>
-          let m3 : Option Market := if ps ≠ 0 then
-              ((mulDiv W ps x.pnlPrice.min x.pr.index.max).bind (toSigned W)).bind (fun d =>
-                (m2.positionImpact.applyDelta W true d).map (fun ip => { m2 with positionImpact := ip }))
-            else some m2
-          m3.map (fun m => { s1 with m := m }))
+  if impact < 0 then payForCost W x s impact.natAbs .impact (fun s1 pc ps _ => recvImpact W x s1 pc ps)
   else .ok s
+
+/-- receiver of `pay_for_price_impact_diff`: claimable by the user. -/
+def recvDiff (W : Nat) (s1 : PState) (pc ps : Nat) : Option PState :=
+  match checkedAdd W s1.userOut pc, checkedAdd W s1.userSec ps with
+  | some a, some b => some { s1 with userOut := a, userSec := b }
+  | _, _ => none
 
 /-- `pay_for_price_impact_diff`. -/
 def payForDiff (W : Nat) (x : PCtx) (s : PState) (diff : Nat) : PRes :=
   if diff = 0 then .ok s else
-  payForCost W x s diff .diff (fun s1 pc ps _ =>
-    match checkedAdd W s1.userOut pc, checkedAdd W s1.userSec ps with
-    | some a, some b => some { s1 with userOut := a, userSec := b }
-    | _, _ => none)
+  payForCost W x s diff .diff (fun s1 pc ps _ => recvDiff W s1 pc ps)
 
 /-- the processing closure of `process_collateral` (NoSwap):
 `(final state, fees, insolvent close step)`. -/
@@ -739,34 +759,43 @@ def decreaseExecutionPriceOk (W : Nat) (index : Price) (isLong : Bool) (size tok
       | _, _ => false
   else true
 
-/-- `check_partial_close` + `check_close`: the executed size delta and withdrawable amount. -/
-def adjustDecrease (W U : Nat) (m : Market) (c : PerpCfg) (pr : Prices) (p : Pos) (sizeDelta withdrawable : Nat) :
+/-- the second half of `check_partial_close` (`is_remaining_size_too_small`): promote the decrease
+to a full close when the remaining size would be below the minimum or the decrease would close
+all the tokens. -/
+def promoteIfSmall (W : Nat) (c : PerpCfg) (p : Pos) (sd1 : Nat) : Except PErr Nat :=
+  if p.sizeUsd > sd1 then
+    if p.sizeUsd - sd1 < c.minPositionSize then .ok p.sizeUsd else
+    match sizeDeltaInTokens W p.isLong p.sizeUsd p.sizeTokens sd1 with
+    | none => .error .fail
+    | some t => .ok (if p.sizeTokens ≤ t then p.sizeUsd else sd1)
+  else .ok sd1
+
+/-- `check_partial_close` when the size will remain: `(size delta, withdrawable)`. -/
+def partialClose (W U : Nat) (m : Market) (c : PerpCfg) (pr : Prices) (p : Pos) (sizeDelta withdrawable : Nat) :
     Except PErr (Nat × Nat) := do
-  let (sd, wd) ← (if sizeDelta < p.sizeUsd then do
-      let (est, _, _) ← posPnl W U m pr p p.sizeUsd
-      let realized ← orF (mulDivSigned W sizeDelta est p.sizeUsd)
-      let remainingPnl ← orF (toI W (est - realized))
-      let oid ← orF (toOppositeSigned W sizeDelta)
-      let (suff, rem0) ← orF (willCollateralBeSufficient W U m c pr p (p.sizeUsd - sizeDelta) (p.collateral - withdrawable) realized oid)
-      let (rem, wd) ← (if suff then pure (rem0, withdrawable) else do
-          if sizeDelta = 0 then throw .arg
-          let addBack ← orF ((checkedMul W withdrawable (pr.collateral p.collLong).min).bind (toSigned W))
-          let r ← orF (toI W (rem0 + addBack))
-          pure (r, 0) : Except PErr (Int × Nat))
-      let remainingValue ← orF (toI W (rem + remainingPnl))
-      let minCv ← orF (toSigned W c.minCollateralValue)
-      let sd1 := if remainingValue < minCv then p.sizeUsd else sizeDelta
-      let sd2 ← (if p.sizeUsd > sd1 then do
-          let small ← (if p.sizeUsd - sd1 < c.minPositionSize then pure true else do
-              let t ← orF (sizeDeltaInTokens W p.isLong p.sizeUsd p.sizeTokens sd1)
-              pure (decide (p.sizeTokens ≤ t)) : Except PErr Bool)
-          pure (if small then p.sizeUsd else sd1)
-        else pure sd1 : Except PErr Nat)
-      pure (sd2, wd)
-    else pure (sizeDelta, withdrawable) : Except PErr (Nat × Nat))
-  -- check_close
-  let wd := if sd = p.sizeUsd ∧ wd ≠ 0 then 0 else wd
-  return (sd, wd)
+  let (est, _, _) ← posPnl W U m pr p p.sizeUsd
+  let realized ← orF (mulDivSigned W sizeDelta est p.sizeUsd)
+  let remainingPnl ← orF (toI W (est - realized))
+  let oid ← orF (toOppositeSigned W sizeDelta)
+  let (suff, rem0) ← orF (willCollateralBeSufficient W U m c pr p (p.sizeUsd - sizeDelta) (p.collateral - withdrawable) realized oid)
+  let (rem, wd) ← (if suff then pure (rem0, withdrawable) else do
+      if sizeDelta = 0 then throw .arg
+      let addBack ← orF ((checkedMul W withdrawable (pr.collateral p.collLong).min).bind (toSigned W))
+      let r ← orF (toI W (rem0 + addBack))
+      pure (r, 0) : Except PErr (Int × Nat))
+  let remainingValue ← orF (toI W (rem + remainingPnl))
+  let minCv ← orF (toSigned W c.minCollateralValue)
+  let sd1 := if remainingValue < minCv then p.sizeUsd else sizeDelta
+  let sd2 ← promoteIfSmall W c p sd1
+  pure (sd2, wd)
+
+def adjustDecrease (W U : Nat) (m : Market) (c : PerpCfg) (pr : Prices) (p : Pos) (sizeDelta withdrawable : Nat) :
+    Except PErr (Nat × Nat) :=
+  match (if sizeDelta < p.sizeUsd then partialClose W U m c pr p sizeDelta withdrawable else .ok (sizeDelta, withdrawable)) with
+  | .error e => .error e
+  | .ok (sd, wd) =>
+    -- check_close
+    .ok (sd, if sd = p.sizeUsd ∧ wd ≠ 0 then 0 else wd)
 
 /-- the bookkeeping tail of `DecreasePosition::execute`: sizes, collateral, collateral sum,
 open interest, total borrowing, validation. `rem` is the processor's remaining collateral,
@@ -788,10 +817,12 @@ def settleDecrease (W U : Nat) (m : Market) (c : PerpCfg) (pr : Prices) (p : Pos
   let p2 := ({ p1 with bf := nextBf }).syncFunding m
   let sdS ← orF (toOppositeSigned W sizeDelta)
   let sdtS ← orF (toOppositeSigned W sdt)
-  -- `update_open_interest` reads is_long / collateral side only
-  let m ← updateOpenInterest W m p2 sdS sdtS
+  let m ← updateOpenInterest W m p.isLong p.collLong sdS sdtS
   if !remove then validatePos W U m c pr p2 false false
   return (m, p2, remove, out1)
+
+/-- `min` written with `if` (what the code does with a comparison). -/
+def capTo (a b : Nat) : Nat := if a > b then b else a
 
 /-- `DecreasePosition::{try_new, execute}` (NoSwap). -/
 def decrease (W U : Nat) (m : Market) (c : PerpCfg) (pr : Prices) (p : Pos) (sizeDelta0 withdraw : Nat)
@@ -800,7 +831,7 @@ def decrease (W U : Nat) (m : Market) (c : PerpCfg) (pr : Prices) (p : Pos) (siz
   if p.isEmpty then throw .invalidPosition
   let sizeDelta1 ← (if sizeDelta0 > p.sizeUsd then (if fl.capSizeDelta then pure p.sizeUsd else throw .arg) else pure sizeDelta0 : Except PErr Nat)
   let insolventAllowed := decide (p.sizeUsd = sizeDelta1) && fl.insolventCloseAllowed
-  let wd0 := if withdraw ≤ p.collateral then withdraw else p.collateral
+  let wd0 := capTo withdraw p.collateral
   let (sizeDelta, wd1) ← adjustDecrease W U m c pr p sizeDelta1 wd0
   -- check_liquidation
   if fl.liquidation then
@@ -826,7 +857,7 @@ def decrease (W U : Nat) (m : Market) (c : PerpCfg) (pr : Prices) (p : Pos) (siz
       let da ← orF (checkedDiv diff cp.min)
       pure (if wd1 > da then wd1 - da else 0)
     else pure wd1 : Except PErr Nat)
-  let wd := if wd2 > s.rem then s.rem else wd2
+  let wd := capTo wd2 s.rem
   let out0 ← orF (checkedAdd W s.out wd)
   let rem := s.rem - wd
   let (m, p', remove, out) ← settleDecrease W U s.m c pr p sizeDelta sdt rem out0
@@ -839,6 +870,54 @@ def decrease (W U : Nat) (m : Market) (c : PerpCfg) (pr : Prices) (p : Pos) (siz
                    uncappedPnl := upnl, withdrawable := wd, shouldRemove := remove, output := out, secondary := sec,
                    holdOut := s.holdOut, holdSec := s.holdSec, userOut := s.userOut, userSec := s.userSec, fees := fees,
                    insolventStep := step, fundingShort := s.fundingShort })
+
+/-! ### histories of position operations -/
+
+/-- market + positions (index in the list = position id). -/
+structure PSys where
+  m : Market
+  ps : List Pos
+  deriving Repr
+
+/-- the six pools C07 is about (open interest, open interest in tokens, collateral sums). -/
+def sameBookB (a b : Market) : Bool :=
+  a.oiL == b.oiL && a.oiS == b.oiS && a.oitL == b.oitL && a.oitS == b.oitS && a.collL == b.collL && a.collS == b.collS
+
+inductive POp where
+  /-- a new (empty) position account -/
+  | openPos (isLong collLong : Bool)
+  | inc (i : Nat) (collateral size : Nat) (pr : Prices)
+  | dec (i : Nat) (size withdraw : Nat) (fl : DecreaseFlags) (pr : Prices)
+  /-- any other market operation (deposit, withdrawal, swap, fee-state updates, clock): it
+  replaces the market by one with the same six pools -/
+  | market (m' : Market)
+
+/-- one operation with the on-chain (revertible) semantics: a failing operation, or an operation
+on a non-existing position, leaves the state unchanged. -/
+def PSys.step (W U : Nat) (c : PerpCfg) (s : PSys) : POp → PSys
+  | .openPos il cl => { s with ps := s.ps ++ [{ isLong := il, collLong := cl }] }
+  | .inc i coll size pr =>
+    match s.ps[i]? with
+    | none => s
+    | some p => match increase W U s.m c pr p coll size with
+      | .ok (m', p', _) => { m := m', ps := s.ps.set i p' }
+      | .error _ => s
+  | .dec i size wd fl pr =>
+    match s.ps[i]? with
+    | none => s
+    | some p => match decrease W U s.m c pr p size wd fl with
+      | .ok (m', p', _) => { m := m', ps := s.ps.set i p' }
+      | .error _ => s
+  | .market m' => if sameBookB s.m m' then { s with m := m' } else s
+
+def PSys.run (W U : Nat) (c : PerpCfg) (s : PSys) : List POp → PSys
+  | [] => s
+  | o :: os => PSys.run W U c (s.step W U c o) os
+
+/-- sum of `f` over the positions of side `il` with collateral token `cl`. -/
+def sumKey (f : Pos → Nat) (il cl : Bool) : List Pos → Nat
+  | [] => 0
+  | p :: ps => (if p.isLong = il ∧ p.collLong = cl then f p else 0) + sumKey f il cl ps
 
 /-! ### the store's guard around a decrease order (`programs/store/src/ops/order.rs`,
 `execute_decrease_position`: liquidation must be a full close; ADL must be required, must
